@@ -362,7 +362,11 @@ StepRet(s, n) ==
                         ELSE LET s2 == OpenBefore(s, L.start) IN
                              Emit(Close(s2, L.start, "error"), Ev("create", "error", L.start, FALSE))
                    [] OTHER -> s
-       IN IF G.nodes[n].inchoice THEN Unwind(s1)
+       \* in a function that returns Option the value is `if in_ordered_choice { None } else
+       \* { Some(()) }`: outside an active attempt the return only leaves the current rule (F18;
+       \* before the repair it was `None` and a caller's `?` dragged every enclosing rule that is
+       \* shared with a choice out of its epilogue).  AsBuilt "ReturnAlwaysNone" is the old code.
+       IN IF G.nodes[n].inchoice /\ (s.ioc \/ "ReturnAlwaysNone" \in AsBuilt) THEN Unwind(s1)
           ELSE \* plain `return;` leaves the function without its epilogue
                LET li == LocalsIdx(s1.stk, Len(s1.stk)) IN [s1 EXCEPT !.stk = SubSeq(@, 1, li - 1)]
 
